@@ -198,7 +198,15 @@ func (c *client) Execute(
 		workStartMsg = RuntimeMessage{RunID: stepData.RunID, MessageID: MessageTypeWorkStart, MessageData: workStartMsg}
 		// Handle signals to the step
 		if signalsToStep != nil {
+			// Goroutines are only added to the wait group while the client is not closed, and under
+			// the mutex that Close takes to mark it closed: Close's wg.Wait() must not overlap an Add.
+			c.mutex.Lock()
+			if c.done {
+				c.mutex.Unlock()
+				return NewErrorExecutionResult(fmt.Errorf("client is closed; cannot execute step %s", stepData.ID))
+			}
 			c.wg.Add(1)
+			c.mutex.Unlock()
 			go func() {
 				defer c.wg.Done()
 				c.executeWriteLoop(stepData.RunID, signalsToStep)
@@ -553,6 +561,11 @@ func (c *client) prepareResultChannels(
 	c.logger.Debugf("Preparing result channels for step with run ID %q", stepData.RunID)
 	c.mutex.Lock()
 	defer c.mutex.Unlock()
+	if c.done {
+		// Close has started: it may already be waiting for the read loop to finish, so no new
+		// read loop may be started (and nobody would tell the plugin about this run's end).
+		return fmt.Errorf("client is closed; cannot execute step %s", stepData.ID)
+	}
 	_, existing := c.runningStepResultEntries[stepData.RunID]
 	if existing {
 		return fmt.Errorf("duplicate run ID given '%s'", stepData.RunID)
